@@ -270,7 +270,8 @@ def findEquations (verts : List (V3 α)) (F : List Face) : List (Eqn α) :=
 /-- `get_dihedral(a, b)`: `arccos(dot(-n_a, n_b))`, `ValueError` when `b` is not a neighbour of `a` -/
 def getDihedral (nbrs : List (List Nat)) (normals : List (V3 α)) (a b : Nat) : Except String α :=
   if (nbrs.getD a []).contains b then
-    .ok (Scalar.acos (V3.dot (-(normals.getD a V3.zero)) (normals.getD b V3.zero)))
+    -- as repaired: `np.arccos(np.clip(np.dot(-n1, n2), -1.0, 1.0))`
+    .ok (Scalar.acos (Scalar.min (Scalar.max (V3.dot (-(normals.getD a V3.zero)) (normals.getD b V3.zero)) (-(Scalar.lit 1))) (Scalar.lit 1)))
   else .error "ValueError"
 
 /-- `edge_vectors`: `vertices[edges[:,1]] - vertices[edges[:,0]]` -/
